@@ -82,9 +82,13 @@ def run(ctx):
     for k in range(2 if t == 'quick' else 8):
         sd = (ctx.seed * 10 + k) * 2 + 1          # odd seed: default stack allocator, quarantine on
         trace = f'{ctx.out}/joinrace_{sd}.ndjson'
-        rc, o, e = ctx.run_harness(h, ['--prim', 'joinrace', '--execs', 80 if t == 'quick' else 400, '--seed', sd, '--vcpus', 3, '--out', trace],
-                                   timeout=900, ok_rcs=(0, 3, 4))
-        rows = vtlib.read_ndjson(trace)
+        rc, o, e = vtlib.sh([h, '--prim', 'joinrace', '--execs', str(80 if t == 'quick' else 400), '--seed', str(sd), '--vcpus', '3', '--out', trace], timeout=900)
+        if rc == 124:
+            raise vtlib.InfraError('h_life --prim joinrace timed out')
+        rows = vtlib.read_ndjson(trace) if os.path.exists(trace) else []
+        if rc not in (0, 3, 4) and not any(r.get('e') == 'Fatal' for r in rows):
+            # the process died without being able to record it (stack gone): that is the outcome of a premature stack release
+            rows.append({'e': 'Fatal', 'sig': rc, 'case': 'harness process killed by a signal'})
         acc, rejs, n = tracecheck.validate(ctx, 'Trace_LifeA', 'Trace_LifeA.cfg', rows, tagbase=f'joinrace_{sd}')
         n_exec += n
         tracecheck.report(ctx, rejs, f'joinrace seed {sd}', name=f'joinrace_{sd}')
